@@ -77,6 +77,42 @@ def consumption(b, d, start, depth=0):
     return must_pass_through(b, start, readers) and ok_moves, consumers
 
 
+def match_propagates(b, d, read_block):
+    """`match r { Ok(..) => .., Err(e) => return Err(e) }` written out: the block that reads r's discriminant switches on it, and
+    every path from a non-Ok arm to the function's return passes an assignment that moves r (or its Err payload, re-wrapped in
+    Err) towards _0."""
+    t = b.blocks[read_block]["term"]
+    if t["t"] != "switch":
+        return False
+    arms = [dst for v, dst in t["targets"] if int(v) != 0]
+    if t["otherwise"] not in [dst for v, dst in t["targets"]] and 0 in [int(v) for v, _ in t["targets"]]:
+        arms.append(t["otherwise"])
+    if not arms:
+        return False
+    carried = {d}
+    writers = set()
+    region = b.reach_from(arms)
+    changed = True
+    while changed:
+        changed = False
+        for bi in sorted(region):
+            for st in b.blocks[bi]["stmts"]:
+                if st["s"] != "assign" or st["lhs"]["p"]:
+                    continue
+                rv = st["rv"]
+                ops = [rv["o"]] if rv["r"] in ("use", "cast") else (rv["ops"] if rv["r"] == "agg" and rv.get("vname") in ("Err", None) else [])
+                for o in ops:
+                    q = operand_place(o)
+                    if q is not None and q["l"] in carried and st["lhs"]["l"] not in carried:
+                        carried.add(st["lhs"]["l"])
+                        changed = True
+                    if q is not None and q["l"] in carried and st["lhs"]["l"] == 0:
+                        writers.add(bi)
+    if 0 not in carried:
+        return False
+    return all(must_pass_through(b, a, writers) for a in arms)
+
+
 def check(ctx):
     configs = ["native"] if ctx.tier == "quick" else ["native", "portable", "native-rel", "portable-rel"]
     for cfg in configs:
@@ -149,6 +185,11 @@ def check_config(ctx, F, tag, views=True):
                     forms.append("return")
                 elif kind == "move":
                     forms.append("move")
+                elif kind == "stmt" and x["s"] == "assign" and x["rv"]["r"] == "discr" and match_propagates(b, x["rv"]["p"]["l"], bj):
+                    forms.append("match(Err arm returns the error)")
+                elif kind == "stmt" and x["s"] == "assign" and x["rv"]["r"] == "use" and operand_place(x["rv"]["o"]) is not None and \
+                        any(isinstance(e, dict) and "down" in e for e in operand_place(x["rv"]["o"])["p"]):
+                    forms.append("payload of a matched arm")     # the arm was selected by a discriminant test, judged above
                 else:
                     forms.append("match/other")
                     okform = False
@@ -162,7 +203,9 @@ def check_config(ctx, F, tag, views=True):
             key = "%s|try@%s" % (b.name, s["self_ty"])
             good = s["residual_ok"] and s["cont_block"] is not None and s["break_block"] is not None
             detail = "break arm is from_residual into the return place"
-            if good:
+            if good and s.get("chain_verified"):
+                detail = "break arm carries the error through the enclosing `?` to the return place (walked)"
+            elif good:
                 reach = b.reach_from([s["break_block"]])
                 hit = [x for x in oks if x in reach]
                 # blocks reachable from the break arm must not contain any call except from_residual (no side effects that mask the error)
